@@ -29,9 +29,11 @@ RULE = ("placements: every documented placement (22) x every documented receiver
         "every untyped initialiser form x fresh/shadowing, scoping cases; names: every name of length <= 2 over {a,B,1,_,-,:,/}, every pair of "
         "distinct names of length <= 2 over {a,A,_,-}; repeats across sites/functions/files, no-event and no-command projects; "
         "random structured projects (1-3 files, 1-3 functions each with a random shape: std parameters / none / non-handle only / handle only, handle from a static or a local let, random attributes, visibility, qualifiers, return type, command or not; 1-6 emit sites, nesting depth <= 3; 70% generated outside every recorded class); "
+        "histories: 3 base projects x 13 single edits (payload type at first/middle/last site of a multi-site event, rename, add, remove, move to another file, swap, emit/emit_to, remove all, unchanged) + unchanged re-run x {CLI, build-script entry point}, plus 160 (quick) random histories of 2-4 unforced runs into one output directory, judged after every run against the sources of that run; "
         "a malformed/out-of-domain stream (emit at undocumented positions, heuristic receivers, names outside the alphabet, non-top-level functions) "
         "where only the correspondence is judged. Non-trivial = at least one emit call in the sources; distinct = distinct cases.")
-TRUSTED = ["tools/props/c12_gen.py renders one case both to Rust source and to the model's s-expression (trusted printer)",
+TRUSTED = ["run histories: a leftover events.ts that a run neither wrote (same inode/mtime/size) nor re-exports is not counted as that run's events module",
+           "tools/props/c12_gen.py renders one case both to Rust source and to the model's s-expression (trusted printer)",
            "Spec/TsModule.v + Spec/TsObs.v (extracted) are the reading of the generated TypeScript; Spec/C12Spec.v oracle is the run-time judge",
            "syn parses the Rust source; the model starts from the AST"]
 ASSUMPTIONS = ["files are analysed in sorted path order (C13-sort-before-use); the case's files are handed to the model in that order (python sorts by path components) and listeners are compared in order"]
